@@ -9,15 +9,31 @@ from checks.common import Check
 from checks.dbcommon import cfg_with, is_known, tla_bool
 
 PROP = "C12"
-KIND_ORDER = ["hist", "other", "badname", "entry", "order", "beyond", "perturb", "remove", "decoy"]
+KIND_ORDER = ["range", "hist", "other", "badname", "entry", "order", "beyond", "perturb", "remove", "rangehist",
+              "decoy"]
 
 
 def _classes(recs):
     by = collections.defaultdict(set)
     for r in recs:
         if r["res"] == "ok":
-            by[json.dumps(r["covered"], sort_keys=True)].add(r["root"])
+            by[r.get("op", "tree") + json.dumps(r["covered"], sort_keys=True)].add(r["root"])
     return by
+
+
+def _non_prefix(case):
+    """some cached step of the history finds a warm cache that is not a prefix of the files it processes"""
+    cached = set()
+    nums = sorted({f["num"] for f in case["imm"]})
+    for st in case["hist"]:
+        todo = [n for n in nums if st["lo"] <= n <= st["hi"]]
+        if st["cache"]:
+            warm = [n in cached for n in todo]
+            if any(warm) and not all(warm[:sum(warm)]):
+                return True
+            if st["op"] == "range" or (todo and todo[-1] == st["hi"]):
+                cached |= set(todo)
+    return False
 
 
 def run(tier, seed):
@@ -40,8 +56,10 @@ def run(tier, seed):
     now = {"FindPrefersDirectChild": tla_bool(not known), "ExcuseDecoy": tla_bool(known)}
     c.cov["model_constants"] = now
     # MC: two nodes one atomic change apart, all histories of <= MaxSteps computations
-    c.mc("db", "MC_DbDigest", cfg_with(c, "MC_DbDigest_quick.cfg" if q else "MC_DbDigest_thorough.cfg", now),
-         name="nodes", workers=8, timeout=3000, heap="8g")
+    # (Merkle trees at any beacon and digests of any range, so that caches warmed by non-prefix subsets occur)
+    for cfg in (["MC_DbDigest_quick.cfg"] if q else ["MC_DbDigest_thorough.cfg"]):
+        c.mc("db", "MC_DbDigest", cfg_with(c, cfg, now), name="nodes-" + cfg[len("MC_DbDigest_"):-4], workers=12,
+             timeout=3400, heap="12g", coverage=False)
     if known:
         # the proposed fix (prefer the direct child directory) closes the model without any excuse
         c.mc("db", "MC_DbDigest", "MC_DbDigest_fixed.cfg", name="proposed-fix", workers=8, timeout=1200)
@@ -58,7 +76,10 @@ def run(tier, seed):
     cases = vlib.printed_json(g, "CASE")
     if len(cases) < 1500:
         raise vlib.ToolError("GEN produced too few cases")
-    cases.sort(key=lambda x: (KIND_ORDER.index(x["kind"]), json.dumps(x, sort_keys=True)))
+    # nodes with the same disk are consecutive (the harness then builds the directory once)
+    cases.sort(key=lambda x: (KIND_ORDER.index(x["kind"]),
+                              json.dumps([x["imm"], x["other"], x["bad"], x["decoy"], x["order"]]),
+                              json.dumps(x, sort_keys=True)))
     cases_path = os.path.join(c.work, "cases.ndjson")
     vlib.write_ndjson(cases_path, cases)
     kinds = collections.Counter(x["kind"] for x in cases)
@@ -80,17 +101,22 @@ def run(tier, seed):
     ok = [x for x in recs if x["res"] == "ok"]
     cov = {
         "computations": len(recs), "ok": len(ok),
-        "classes": len(cl), "classes_with_2plus_members": sum(1 for k in cl if sum(
-            1 for x in ok if json.dumps(x["covered"], sort_keys=True) == k) >= 2) if len(recs) < 20000 else -1,
+        "classes": len(cl), "classes_with_2plus_members": sum(
+            1 for n in collections.Counter(x["op"] + json.dumps(x["covered"], sort_keys=True) for x in ok).values()
+            if n >= 2),
         "by_kind_ok": dict(collections.Counter(x["kind"] for x in ok)),
         "with_cache_ok": sum(1 for x in ok if x["cache"]),
+        "range_computations_ok": sum(1 for x in ok if x["op"] == "range"),
+        "range_warmed_histories": sum(1 for x in cases if x["kind"] == "rangehist"),
+        "histories_with_non_prefix_warm_cache": sum(1 for x in cases if _non_prefix(x)),
         "decoy_first_ok": sum(1 for x in ok if x["decoy"] == "first" and x["entry"] == "db"),
         "decoy_after_ok": sum(1 for x in ok if x["decoy"] == "after"),
         "errors": dict(collections.Counter(x["kind"] for x in recs if x["res"] != "ok")),
     }
     c.cov["stages"]["RUN:cases"]["coverage"] = cov
     if len(ok) < 1000 or cov["with_cache_ok"] < 100 or cov["by_kind_ok"].get("perturb", 0) < 100 \
-            or cov["decoy_after_ok"] == 0:
+            or cov["decoy_after_ok"] == 0 or cov["range_computations_ok"] < 500 \
+            or cov["histories_with_non_prefix_warm_cache"] < 100:
         raise vlib.ToolError(f"vacuity: too few successful computations {cov}")
     c.sample(recs[0])
     c.sample([x for x in recs if x["kind"] == "perturb"][0])
@@ -105,8 +131,9 @@ def run(tier, seed):
     c.validate("db", "DbDigestTrace", "DbDigestTrace.cfg", t2, name="random")
     c.cov["evaluations"] = len(recs) + len(recs2)
     c.cov["distinct_nontrivial"] = len(cl) + len(_classes(recs2))
-    c.cov["rule"] = ("digest computations of the real digester / signable builder on TLC-generated and seeded random "
-                     "directories; non-trivial = computation succeeded, distinct = distinct covered file sets")
+    c.cov["rule"] = ("Merkle-tree and range-digest computations of the real digester / signable builder on TLC-generated "
+                     "and seeded random directories and cache histories; non-trivial = computation succeeded, distinct = "
+                     "distinct (operation, covered file set)")
     return c.finish()
 
 
